@@ -33,6 +33,7 @@ def units(tier, seed):
         {"sid": "iso", "family": "iso", "size": 8 if q else 10, "donor": ("iso", 7 if q else 8), "max_slices": 50 if q else 250},
         {"sid": "iso", "family": "iso_list", "size": 10 if q else 12, "donor": ("iso_list", 9), "max_slices": 50 if q else 250},
         {"sid": "table", "family": "table", "size": 14 if q else 20, "donor": ("table", 12 if q else 14), "max_slices": 50 if q else 250},
+        {"sid": "iso_li", "family": "lists", "size": 12 if q else 14, "donor": ("lists", 10), "max_slices": 40 if q else 200},
     ]
     for sp in specs:
         sp["offset"] = seed
